@@ -170,7 +170,6 @@ func TestVerif_C03_Wrappers(t *testing.T) {
 	})
 }
 
-
 // Histories of consecutive verifications under RELATED public keys: P then -P, P again, a key with the same x, the same
 // signature presented under another key, ... Each verdict must be the standard's for that call alone.
 func TestVerif_C03_RelatedKeyHistory(t *testing.T) {
